@@ -322,6 +322,53 @@ def breaking_variants(root):
         nth_expr(lambda n: isinstance(n, ast.BoolOp) and 'weid2 != weid' in ast.unparse(n)), 'weid2 and weid2 > 0')
     add(T, 'Traph.index_batch_crawl_iter', 'R-DIRTY-WRITTEN', 'crawled flag left to a conditional writer',
         nth(lambda s: call_stmt(s, 'write', 'source_node')), 'pass')
+    # ---- round 4 rules
+    ND, HD, LN = 'traph/lru_trie/node.py', 'traph/lru_trie/header.py', 'traph/link_store/node.py'
+    add(ND, 'LRUTrieNode.refresh', 'R-PRIMITIVES', 'refresh skipped for the root block',
+        nth(lambda s: call_stmt(s, 'read')), lambda n, src: 'if not self.is_root(): ' + seg(src, n))
+    add(HD, 'LRUTrieHeader.write', 'R-PRIMITIVES', 'header write skipped when the version is unset',
+        nth(lambda s: call_stmt(s, 'write')), lambda n, src: 'if self.data[0]: ' + seg(src, n))
+    add(LN, 'LinkStoreNode.target', 'R-NULL-THRESHOLD', 'first trie block treated as NULL',
+        nth_expr(lambda n: isinstance(n, ast.Compare) and 'FIRST_DATA_BLOCK' in ast.unparse(n)), lambda n, src: seg(src, n).replace('<', '<='))
+    add(ND, 'LRUTrieNode.child', 'R-NULL-THRESHOLD', 'first trie block treated as NULL',
+        nth_expr(lambda n: isinstance(n, ast.Compare) and 'FIRST_DATA_BLOCK' in ast.unparse(n)), lambda n, src: seg(src, n).replace('<', '<='))
+    add(T, 'Traph.get_page_degree', 'R-DEGREE-FLAGS', 'degree ignores self-links',
+        nth_expr(lambda n: isinstance(n, ast.keyword) and n.arg == 'include_internal'), 'include_internal=False')
+    add(T, 'Traph.get_page_indegree', 'R-DEGREE-FLAGS', 'indegree counts outbound links too',
+        nth_expr(lambda n: isinstance(n, ast.keyword) and n.arg == 'include_outbound'), 'include_outbound=True')
+    add(T, 'Traph.close', 'R-CLOSE', 'link store file closed under the wrong handle, trie file twice',
+        nth_expr(lambda n: isinstance(n, ast.Call) and ast.unparse(n) == 'self.link_store_file.close()'), 'self.lru_trie_file.close()')
+    add(T, 'Traph.get_webentity_pages_iter', 'R-ACCUMULATE', 'result reset at every page',
+        nth(lambda s: isinstance(s, ast.Expr) and isinstance(s.value, ast.Call) and isinstance(s.value.func, ast.Attribute) and s.value.func.attr == 'append'),
+        lambda n, src: 'pages = []; ' + seg(src, n))
+    add(T, 'Traph.get_webentity_most_linked_pages_iter', 'R-ENCODED', 'walk started from the raw prefix',
+        nth(lambda s: isinstance(s, ast.Assign) and 'self.__encode(prefix)' in ast.unparse(s)), 'prefix = prefix')
+    add(T, 'Traph.retrieve_prefix', 'R-ENCODED', 'lookup with the raw LRU',
+        nth(lambda s: isinstance(s, ast.Assign) and '__encode(' in ast.unparse(s)), 'pass')
+    add(T, 'Traph.index_batch_crawl_iter', 'R-LOOP-CARRIED', 'source node bound on one branch only',
+        nth(lambda s: isinstance(s, ast.Assign) and ast.unparse(s) == 'source_node = pages[source_page]'), 'pass')
+    add('traph/storage/file.py', 'FileStorage.__len__', 'R-STORAGE-STATELESS', 'file length remembered on the storage object',
+        nth(lambda s: isinstance(s, ast.Return)), lambda n, src: 'self.length = ' + seg(src, n.value) + '; return self.length')
+    add(L, 'LRUTrie.windup_lru_for_webentity', 'R-NEAREST-WE', 'outermost webentity wins',
+        nth(lambda s: isinstance(s, ast.For)),
+        'found = None\n        for parent in self.node_parents_iter(node):\n            if parent.has_webentity():\n                found = parent.webentity()\n'
+        '        if found:\n            return found')
+    add(T, 'Traph.__add_prefixes', 'R-PREFIX-EDIT', 'strict refusal only when two prefixes are taken',
+        nth_expr(lambda n: isinstance(n, ast.Compare) and ast.unparse(n) == 'len(invalid_prefixes) > 0'), 'len(invalid_prefixes) > 1')
+    add(T, 'Traph.__apply_webentity_creation_rule', 'R-RULES-TO-APPLY', 'matching rule not proposed when the match is short',
+        nth_expr(lambda n: isinstance(n, ast.UnaryOp) and ast.unparse(n) == 'not match'), 'not match or match.end() < len(rule_prefix)')
+    add(L, 'LRUTrie.dfs_iter', 'R-SKIP-CHILDLESS', 'from-root flag derived from is_root()',
+        nth(lambda s: isinstance(s, ast.Assign) and ast.unparse(s).startswith('starting_from_root =')), 'starting_from_root = starting_node is None or starting_node.is_root()')
+    add(T, 'Traph.get_webentity_pagelinks_iter', 'R-FILTER-AGREE', 'outlinks only of crawled pages',
+        nth_expr(lambda n: isinstance(n, ast.Call) and ast.unparse(n) == 'node.has_outlinks()'), 'node.is_crawled() and node.has_outlinks()')
+    add(H, 'lru_variations', 'R-VARIATIONS', 'bounded split',
+        nth_expr(lambda n: isinstance(n, ast.Call) and isinstance(n.func, ast.Attribute) and n.func.attr == 'split'), "lru.split(b'|', 8)")
+    add(T, 'Traph.expand_prefix', 'R-VARIATIONS', 'prefix lower-cased before expansion',
+        nth_expr(lambda n: isinstance(n, ast.Call) and ast.unparse(n) == 'self.__encode(prefix)'), 'self.__encode(prefix).lower()')
+    add(L, 'LRUTrie.nodes_iter', 'R-GEOMETRY', 'tail blocks not handed out',
+        nth(lambda s: isinstance(s, ast.Expr) and isinstance(s.value, ast.Yield)), lambda n, src: 'if not node.is_tail(): ' + seg(src, n))
+    add(T, 'Traph.paginate_webentity_pages', 'R-PAGINATE', 'prefixes numbered relative to the resume point',
+        nth_expr(lambda n: isinstance(n, ast.Call) and ast.unparse(n) == 'range(start_i, len(prefixes))'), 'range(len(prefixes[start_i:]))')
     return out
 
 
